@@ -38,6 +38,8 @@ reg("C06", "h_c01")
 reg("C12", "h_c12")
 reg("C07", "h_c07")
 reg("C15", "h_c15")
+reg("C08", "h_c08")
+reg("C09", "h_c09")
 
 # quick / thorough wall-clock budgets per check (seconds); hitting one ends the run with exhaustive:false
 DEADLINE = {"quick": 150, "thorough": 1500}
